@@ -423,6 +423,12 @@ def gen_multi(tier, rng):
         cases.append({"block": "multi", "space": "dict", "clone": "once", "static": {"num_outputs": 3}, "cfg": dict(cfg),
                       "init": {"latent": 24, "cnn": {"layers": 1, "widths": [8], "kernels": [3], "strides": [1]}},
                       "steps": steps, "every": 1, "src": "same-clone"})
+    # strided feature extractor: explicit kernels at the boundary of what fits (16x16 image, kernels [3,2], strides [2,1]: map 7 -> 6)
+    bsteps = [S(k + "change_kernel", (0, 0), kernel_size=kk, hidden_layer=1) for kk in (8, 9, 7, 8, 6)] + \
+             [S(k + "change_kernel", (0, 1)), S("add_latent_node", (0, 1)), S(k + "add_channel", (1, 0)), S(k + "change_kernel", (0, 0), kernel_size=8, hidden_layer=1)]
+    cases.append({"block": "multi", "space": "dict", "static": {"num_outputs": 3}, "cfg": dict(cfg),
+                  "init": {"latent": 16, "cnn": {"layers": 2, "widths": [8, 8], "kernels": [3, 2], "strides": [2, 1]}},
+                  "steps": bsteps, "every": 1, "src": "strided", "twin": True})
     for n in ("q", "value", "det"):
         for sp in ("dict", "tuple"):
             if quick and (n, sp) not in (("q", "dict"), ("value", "tuple"), ("det", "dict")):
